@@ -23,6 +23,8 @@ CONSTANTS
                     \* "eager": table initialised before the accept loop (the repair); "atomic": CRC steps not modelled
     IgnoreSigpipe,  \* TRUE as in setup_signals(); FALSE = regression "SIGPIPE no longer ignored"
     Cap,            \* socket buffer capacity in frames (a full buffer blocks the writing session thread only)
+    Buffered,       \* TRUE: output frames may carry any number of units (stdio buffering is not part of the property);
+                    \* FALSE: one frame per unit (line-buffered stream, one println per unit) - fewer interleavings
     Gaps,           \* "all": every arrival schedule (for scenario generation); "overlap": only the most general one
     Emit            \* TRUE: print one JSON scenario per initial state ("@@J ")
 
@@ -148,12 +150,15 @@ KindChoices ==
       [] Suite = "c18"  -> Others(IF Gaps = "all" THEN AllKinds \ {"exec"} ELSE RepKinds \ {"exec"})
       [] Suite = "c18s" -> Others(SmallKinds)
       [] OTHER -> [Clients -> AllKinds]
+\* With a free arrival order exec clients are interchangeable: only sorted module assignments are explored.
+ModIndex(m) == CHOOSE i \in 1 .. 6 : <<"zero", "one", "two", "many", "fail", "code">>[i] = m
+Sorted(F) == IF Gaps = "all" THEN F ELSE {f \in F : \A c \in 1 .. N - 1 : ModIndex(f[c]) <= ModIndex(f[c + 1])}
 ModChoices(k) ==
-    IF Suite = "c17" THEN [Clients -> {"zero", "one", "many", "fail"}] \cup {[c \in Clients |-> "code"]}
-    ELSE IF Suite = "c17q" THEN [Clients -> {"zero", "many", "fail"}] \cup {[c \in Clients |-> "one"], [c \in Clients |-> "code"]}
-    ELSE IF Suite = "c17l" THEN [Clients -> {"zero", "many", "fail"}]
+    IF Suite = "c17" THEN Sorted([Clients -> {"zero", "one", "many", "fail"}]) \cup {[c \in Clients |-> "code"]}
+    ELSE IF Suite = "c17q" THEN Sorted([Clients -> {"zero", "many", "fail"}]) \cup {[c \in Clients |-> "one"], [c \in Clients |-> "code"]}
+    ELSE IF Suite = "c17l" THEN Sorted([Clients -> {"zero", "many", "fail"}])
     ELSE IF Suite = "crc" THEN {[c \in Clients |-> "one"]}
-    ELSE {[c \in Clients |-> IF k[c] = "exec" THEN "two" ELSE IF k[c] \in ExecKinds THEN "many" ELSE "zero"]}
+    ELSE {[c \in Clients |-> IF k[c] \in ExecKinds THEN "two" ELSE "zero"]}
 \* "after" schedules are sub-behaviours of "overlap" (a client may always arrive late), so model checking needs only
 \* the all-overlap schedule; the generator configurations (Gaps = "all") enumerate both for replay.
 GapChoices == IF Gaps = "all" THEN [1 .. N - 1 -> {"overlap", "after"}] ELSE {[i \in 1 .. N - 1 |-> "overlap"]}
@@ -347,7 +352,7 @@ CrcReadEnd(c)  == S_CrcReadEnd(c) /\ UNCHANGED <<scenvars, clientvars>>
 Deserialize(c) == CrcModel = "atomic" /\ S_Deser(c, loaded[c] # "junk") /\ UNCHANGED <<scenvars, clientvars>>
 VerifyStep(c)  == S_Verify(c) /\ UNCHANGED <<scenvars, clientvars>>
 Crash(c)       == S_Crash(c) /\ UNCHANGED <<scenvars, clientvars>>
-ExecStep(c)    == S_ExecStep(c, 1) /\ UNCHANGED <<scenvars, clientvars>>
+ExecStep(c)    == (Buffered \/ flushed[c] = pos[c]) /\ S_ExecStep(c, 1) /\ UNCHANGED <<scenvars, clientvars>>
 Flush(c)       == sst[c] \in {"exec", "flush"} /\ MayWrite(c) /\ S_Flush(c, WriteOk(c)) /\ UNCHANGED <<scenvars, clientvars>>
 ExecEnd(c)     == S_ExecEnd(c) /\ UNCHANGED <<scenvars, clientvars>>
 SendErr(c)     == sst[c] \in ErrStates \cup {"flush"} /\ MayWrite(c) /\ (S_SendErr(c, WriteOk(c)) \/ S_SendRtErr(c, WriteOk(c))) /\ UNCHANGED <<scenvars, clientvars>>
